@@ -270,17 +270,23 @@ def div_guard(ctx):
     obs = []
     total_div = 0
     per_fn = defaultdict(list)
+    local_names = {T.canon(n) for n in f.thir}
+    call_args = defaultdict(list)      # callee -> [[argument known non-zero at the call site?, ..] per call site]
+    params_of = {}
     for name, b in f.thir.items():
         cn = T.canon(name)
         if cn not in fns or cn.startswith("<errorcode::galois::GF as "):
             continue   # the operator impls only forward their operand
         sts = T.stmts(b["body"], {"__noinline__": True})
+        params_of[cn] = [(p_.get("pat") or {}).get("name", "#").split("#")[0] if (p_.get("pat") or {}).get("k") == "Bind" else None for p_ in b["params"]]
 
         def visit(stl, known):
             known = list(known)
             for s in stl:
                 for e in T.stmt_exprs(s):
                     for x in T.sx_walk(e):
+                        if isinstance(x, tuple) and x[0] == "call" and x[1] in local_names and x[1] not in GF_DIV:
+                            call_args[x[1]].append([any(_strip_conv(a0) == k for k in known) for a0 in x[2]])
                         if isinstance(x, tuple) and x[0] == "call" and x[1] in GF_DIV:
                             d = _strip_conv(x[2][1])
                             guarded = any(d == k for k in known) or (d[0] == "adt" and d[1] == "errorcode::galois::GF" and d[3][0][1][0] == "lit" and d[3][0][1][1] != 0)
@@ -304,6 +310,15 @@ def div_guard(ctx):
                     for _p, body, _g in s[2]:
                         visit(body, known)
         visit(sts, [])
+    # a divisor that is a parameter of a private helper is guarded when every call site passes a value already known to be non-zero
+    for cn, lst in per_fn.items():
+        ps = params_of.get(cn, [])
+        sites = call_args.get(cn, [])
+        for k0, (guarded, dshow, where) in enumerate(lst):
+            if not guarded and dshow in ps and sites:
+                i0 = ps.index(dshow)
+                if all(len(cs) > i0 and cs[i0] for cs in sites):
+                    lst[k0] = (True, dshow + " (non-zero at every call site)", where)
     # per-file budget: a reviewed division that moved into a helper of the same file (or two that were merged into one helper)
     # is the same reviewed division
     file_of = {}
@@ -500,12 +515,28 @@ def variant_loop(lp, f=None):
     down = cond[1] in ("Ge", "Gt")
     if L[0] == "bin" and L[1] == "Add" and L[3][0] == "lit" and not down:
         L = L[2]
+    grow = None
+    if not down and L[0] == "call" and L[1].endswith("::len") and len(L[2]) == 1:
+        # `while v.len() < E { .. v.push(x) .. }`: the length is the counter
+        gv = strip_into_iter(L[2][0])
+        while gv[0] == "call" and gv[1].split("::")[-1] in ("deref", "deref_mut", "as_slice") and len(gv[2]) == 1:
+            gv = gv[2][0]
+        if gv[0] in ("var", "field") and Rr[0] in ("lit", "var"):
+            return _grow_loop(lp, cond, gv, Rr, then, f)
+        return None
     if L[0] not in ("var", "field"):
         return None
     p = L
     vec = None
+    bound = None
     if Rr[0] == "lit" and isinstance(Rr[1], int):
         bound = Rr[1]
+    elif down and Rr[0] == "var":
+        # `while p > k` / `p >= k` with k a local the body never writes: p only goes down by literals, and p > k >= 0 (or, for
+        # `>=`, the step must not pass below k: only step 1 with `>` is accepted)
+        if cond[1] != "Gt" or any(st[0] in ("assign", "assignop") and (st[1] if st[0] == "assign" else st[2])[:2] == Rr[:2] for st in T.stmt_walk(then)):
+            return None
+        bound = 0
     elif Rr[0] == "call" and Rr[1].endswith("::len") and len(Rr[2]) == 1 and not down:
         vec = strip_into_iter(Rr[2][0])
         while vec[0] == "call" and vec[1].split("::")[-1] in ("deref", "deref_mut", "as_slice") and len(vec[2]) == 1:
@@ -596,6 +627,94 @@ def variant_loop(lp, f=None):
     return "`while %s`: every path through the body %s%s or leaves the loop; nothing else writes %s%s" % (
         T.sx_show(cond, 60), ("lowers " if down else "raises ") + T.sx_show(p), (" or removes an element of " + T.sx_show(vec)) if vec is not None else "",
         T.sx_show(p), (" or can grow " + T.sx_show(vec)) if vec is not None else "")
+
+
+def _grow_loop(lp, cond, vec, bound, then, f=None):
+    """`while v.len() < E`: every path through the body pushes onto v (or leaves); nothing in the body removes from v or writes E"""
+    def same(a, b):
+        return a[:2] == b[:2] if a[0] == "var" and b[0] == "var" else a == b
+
+    def owner_push(callee):
+        """a crate-local `fn push(&mut self, x) { self.<field>.push(x) }` on the owner of the vector field"""
+        if f is None or vec[0] != "field":
+            return False
+        b = next((b0 for n0, b0 in f.thir.items() if n0 == callee or T.canon(n0) == callee), None)
+        if b is None or len(b["params"]) != 2:
+            return False
+        sts0 = T.stmts(b["body"], {"__noinline__": True})
+        if len(sts0) != 1 or sts0[0][0] != "expr":
+            return False
+        e0 = sts0[0][1]
+        return e0[0] == "call" and e0[1].endswith("Vec::push") and e0[2][0][0] == "field" and e0[2][0][2] == vec[2] and e0[2][0][1][0] == "var" and e0[2][1][0] == "var"
+
+    bad = []
+    for st in T.stmt_walk(then):
+        if st[0] in ("assign", "assignop"):
+            tgt = st[1] if st[0] == "assign" else st[2]
+            if same(tgt, vec) or (bound[0] == "var" and same(tgt, bound)):
+                bad.append("write")
+        for e in T.stmt_exprs(st):
+            for x in T.sx_walk(e):
+                if isinstance(x, tuple) and x and x[0] == "closure":
+                    bad.append("closure")
+                if isinstance(x, tuple) and x and x[0] == "call":
+                    last = x[1].split("::")[-1]
+                    for a in x[2]:
+                        a0 = strip_into_iter(a) if isinstance(a, tuple) else a
+                        if isinstance(a0, tuple) and a0 and a0[0] in ("var", "field") and same(a0, vec) and last not in ("len", "push", "index", "is_empty", "iter", "get", "first", "last", "deref", "as_slice", "extend_from_slice", "capacity"):
+                            bad.append(last)
+                        if bound[0] == "var" and isinstance(a0, tuple) and a0 and a0[0] == "var" and same(a0, bound) and last not in _P_BYVALUE:
+                            bad.append(last)
+                        # the owner of the vector field handed to anything but its own push method could shrink the vector
+                        if vec[0] == "field" and isinstance(a0, tuple) and a0 and a0[0] == "var" and same(a0, vec[1]) and not (last == "push" and owner_push(x[1])):
+                            bad.append("owner passed to " + last)
+    if bad:
+        return None
+
+    def pushes(st):
+        e = st[1] if st[0] == "expr" else None
+        if not (isinstance(e, tuple) and e and e[0] == "call" and e[1].split("::")[-1] == "push" and e[2]):
+            return False
+        a0 = strip_into_iter(e[2][0])
+        return same(a0, vec) or (vec[0] == "field" and same(a0, vec[1]) and owner_push(e[1]))
+
+    def outs(stl):
+        cur = {"neutral"}
+        for st in stl:
+            nxt = set()
+            for o in cur:
+                if o in ("exit", "stuck"):
+                    nxt.add(o)
+                    continue
+                if pushes(st):
+                    so = {"progress"}
+                elif st[0] in ("break", "return"):
+                    so = {"exit"}
+                elif st[0] == "continue":
+                    so = {"continue"}
+                elif st[0] == "if":
+                    so = outs(st[2]) | outs(st[3] or [])
+                elif st[0] == "match":
+                    so = set()
+                    for arm in st[2]:
+                        so |= outs(arm[1])
+                    so = so or {"neutral"}
+                elif st[0] in ("loop", "for"):
+                    so = {"neutral"}
+                else:
+                    so = {"neutral"}
+                for o2 in so:
+                    if o2 == "continue":
+                        nxt.add("exit" if o == "progress" else "stuck")
+                    elif o2 in ("exit", "stuck"):
+                        nxt.add(o2)
+                    else:
+                        nxt.add("progress" if "progress" in (o, o2) else "neutral")
+            cur = nxt
+        return cur
+    if not outs(then) <= {"progress", "exit"}:
+        return None
+    return "`while %s`: every path through the body pushes onto %s or leaves the loop; nothing removes from it or writes the bound" % (T.sx_show(cond, 60), T.sx_show(vec))
 
 
 def _loop_budget(table, found):
